@@ -71,6 +71,11 @@ func main() {
 		if idx < 0 || idx >= len(scs) {
 			fatal("no job %d", idx)
 		}
+		if ob := os.Getenv("VS_BOUNDS"); ob != "" { // experiments only: override the scenario's bounds
+			var b Bounds
+			fmt.Sscanf(ob, "%d,%d,%d", &b.P, &b.F, &b.D)
+			scs[idx].Bounds = b
+		}
 		res := exploreScenario(c.Property, scs[idx], time.Duration(secs*float64(time.Second)))
 		json.NewEncoder(os.Stdout).Encode(res)
 	case "replay":
